@@ -162,6 +162,7 @@ def detect_fns(d):
         preds.sort(key=lambda f: len(f["blocks"]))
         put(preds[0], "is_reconnect")
         put(preds[1], "session_expired")
+    _codec_tx_helpers(d, out)
     # a role claimed by two functions is no role: leave both alone (the rules then see what is there)
     seen = {}
     for a, c in out.items():
@@ -208,6 +209,82 @@ def _quota_fields(d, fns):
                 if rp and rp[-1].get("adt") == CONNECTION and rp[-1].get("n") in u16s and rp[-1]["n"] != lp[-1]["n"]:
                     return lp[-1]["n"], rp[-1]["n"]
     return None
+
+
+def _strip_g(p):
+    prev = None
+    while prev != p:
+        prev = p
+        p = re.sub(r"::<[^<>]*>", "", p)
+        p = re.sub(r"<[^<>]*>", "", p)
+    return p
+
+
+def _codec_tx_helpers(d, out):
+    """The private helpers of the *Tx encoders by what they do: the length-prefix helpers (return VarSizeInt: the one
+    the others are summed into is the remaining length, the others in the order encode() writes them: property length,
+    will property length), the helper whose u8 result encode() writes directly (flags byte), the predicate methods."""
+    by_path = {f["path"]: f for f in d["fns"]}
+    enc_of = {}
+    for f in d["fns"]:
+        if f["kind"] == "fn" and f["name"] == "encode" and (f.get("impl_trait") or "").startswith("core::utils::Encode"):
+            adt = _strip_g(f.get("impl_self") or "")
+            if re.match(r"codec::\w+::\w+Tx$", adt):
+                enc_of[adt] = f
+    for adt, enc in enc_of.items():
+        meths = [f for f in d["fns"] if f["kind"] == "fn" and not f.get("impl_trait") and _strip_g(f.get("impl_self") or "") == adt]
+        if not meths:
+            continue
+        mp = {m["path"]: m for m in meths}
+
+        def callees(f):
+            cs = []
+            for b in f["blocks"]:
+                t = b["term"]
+                if t["k"] == "call" and t.get("callee") and t["callee"]["def"] in mp:
+                    cs.append(t["callee"]["def"])
+            return cs
+        vs = [m for m in meths if m.get("sig_out") == "core::base_types::VarSizeInt"]
+        prefix = None
+        if vs:
+            root = None
+            for m in vs:
+                others = {x["path"] for x in vs if x is not m}
+                if not others or others & set(callees(m)):
+                    root = m if (root is None or len(set(callees(m)) & others) > 0) else root
+            if root is not None:
+                prefix = root["path"][:root["path"].rfind("::") + 2]
+                out[root["path"]] = prefix + "remaining_len"
+                order = []
+                for c in callees(enc):
+                    if c in {x["path"] for x in vs} and c != root["path"] and c not in order:
+                        order.append(c)
+                for c, nm in zip(order, ("property_len", "will_property_len")):
+                    out[c] = prefix + nm
+        # flags byte: a u8 helper whose result encode() hands straight to the encoder
+        u8s = [m for m in meths if m.get("sig_out") == "u8"]
+        emitted = []
+        for b in enc["blocks"]:
+            t = b["term"]
+            if t["k"] == "call" and t.get("callee") and t["callee"]["def"] in {m["path"] for m in u8s} and not t["dest"]["p"]:
+                dl = t["dest"]["l"]
+                for b2 in enc["blocks"]:
+                    t2 = b2["term"]
+                    if t2["k"] == "call" and re.search(r"(Encoder::encode|BufMut::put_u8)$", _strip_g((t2.get("callee") or {}).get("def", ""))) and \
+                            any(o.get("k") in ("move", "copy") and o["pl"]["l"] == dl and not o["pl"]["p"] for o in t2["ops"]):
+                        emitted.append(t["callee"]["def"])
+        emitted = sorted(set(emitted))
+        if len(emitted) == 1:
+            m = mp[emitted[0]]
+            pre = m["path"][:m["path"].rfind("::") + 2]
+            out[m["path"]] = pre + ("fixed_hdr" if adt.endswith("PublishTx") else "payload_flags")
+        # predicate methods (bool / 0-1 u8, not written themselves)
+        preds_ = [m for m in meths if m.get("sig_out") in ("bool", "u8") and m["path"] not in emitted and len(m.get("sig_in") or []) == 1]
+        canon_pred = {"codec::connect::ConnectTx": "will_flag", "codec::auth::AuthTx": "is_shortened"}.get(adt)
+        if canon_pred and len(preds_) == 1:
+            m = preds_[0]
+            pre = m["path"][:m["path"].rfind("::") + 2]
+            out[m["path"]] = pre + canon_pred
 
 
 def _sub_path(text, actual, canon):
